@@ -326,7 +326,7 @@ pub fn run(ctx: &Ctx) {
          well-formed by the token-level tag stack, plus every truncation of it at every byte; for EVERY start tag (and every empty \
          tag when expansion is on) the reader is advanced to that Start event, then each of read_to_end, read_text (slice), \
          read_to_end_into (piece sizes 1, 2, whole), read_to_end_into_async (piece sizes 1, whole; thorough: every placement of one \
-         Pending) is called, and read_to_end_into with an Interrupted / a hard I/O error at every refill index of the complete documents, under the 16 combinations of trim_text_start x trim_text_end x expand_empty_elements x \
+         Pending) is called, and read_to_end_into with an Interrupted / a hard I/O error at every refill index of the complete documents, under the 32 combinations of check_end_names x trim_text_start x trim_text_end x expand_empty_elements x \
          trim_markup_names_in_closing_tags. Oracle from the token structure: span == (end of start tag, '<' of the matching end tag) \
          (empty for an expanded empty element); read_text == input[span]; all following events and positions equal those of an \
          uninterrupted run after that end tag; Config identical before and after, on success and on error; unclosed => Err. \
@@ -343,7 +343,7 @@ pub fn run(ctx: &Ctx) {
         "documents",
         0,
         count_upto(k, max_tokens),
-        json!({"tokens": TOKENS.iter().map(|t| lossy(t)).collect::<Vec<_>>(), "max_tokens": max_tokens, "configurations": 16, "truncations": "every byte"}),
+        json!({"tokens": TOKENS.iter().map(|t| lossy(t)).collect::<Vec<_>>(), "max_tokens": max_tokens, "configurations": 32, "truncations": "every byte"}),
         |idx, acc| {
             let mut toks = Vec::new();
             decode_upto(k, max_tokens, idx, &mut toks);
@@ -353,8 +353,9 @@ pub fn run(ctx: &Ctx) {
             }
             acc.count("well_formed_documents", 1);
             let has_ws_end = toks.contains(&2);
-            for c in 0..16u8 {
-                let mut cfg = CHECK_END_NAMES;
+            for c in 0..32u8 {
+                // end-name checking is independent of skipping: the documents are well-formed
+                let mut cfg = if c & 16 != 0 { 0 } else { CHECK_END_NAMES };
                 if c & 1 != 0 {
                     cfg |= TRIM_START;
                 }
@@ -373,7 +374,7 @@ pub fn run(ctx: &Ctx) {
                 // full document and every truncation
                 let n = doc.bytes.len();
                 for len in (1..=n).rev() {
-                    if len < n && (c % 5 != 0) && !pend {
+                    if len < n && (c % 5 != 0 || c >= 16) && !pend {
                         // quick tier: truncations under 4 of the 16 configurations
                         continue;
                     }
